@@ -125,12 +125,26 @@ func encodeBarrier(
 
 // A barrier error is decoded exactly.
 func decodeBarrier(ctx context.Context, msg string, _ []string, payload proto.Message) error {
+	if _, ok := payload.(*errbase.EncodedError); !ok {
+		// If this ever happens, this means some version of the library
+		// (presumably future) changed the payload type, and we're
+		// receiving this here. In this case, give up and let
+		// DecodeError use the opaque type.
+		return nil
+	}
 	enc := payload.(*errbase.EncodedError)
 	return &barrierErr{smsg: redact.RedactableString(msg), maskedErr: errbase.DecodeError(ctx, *enc)}
 }
 
 // Previous versions of barrier errors.
 func decodeBarrierPrev(ctx context.Context, msg string, _ []string, payload proto.Message) error {
+	if _, ok := payload.(*errbase.EncodedError); !ok {
+		// If this ever happens, this means some version of the library
+		// (presumably future) changed the payload type, and we're
+		// receiving this here. In this case, give up and let
+		// DecodeError use the opaque type.
+		return nil
+	}
 	enc := payload.(*errbase.EncodedError)
 	return &barrierErr{smsg: redact.Sprint(msg), maskedErr: errbase.DecodeError(ctx, *enc)}
 }
